@@ -549,3 +549,125 @@ Example C02_example_contracts :
   contracts_hold 0 1 Nat.add Nat.mul exv_tbl exv_s0 exv_ops.
 Proof. exact exv_hyps. Qed.
 Print Assumptions C02_example_contracts.
+
+(* ---- kernel contracts on the index ranges only (TTN/InvSemEyeRange.v, TTN/InvSemRunRange.v) ------------------- *)
+(* eye_atom (identity at EVERY pair of indices) together with def_holds (Q.R = A at EVERY assignment) cannot
+   both hold when a freshly inserted identity node is split afterwards (C02_eye_atom_split_unsatisfiable below),
+   so C02_run_net_value says nothing about such sequences.  The contracts are therefore restated on the
+   recorded index ranges: eye_atom_in_range (identity below the dimensions of the atom's two wires),
+   def_holds_in_range (Q.R = A at every assignment that is in range on the axes of the input tensor), and the
+   conclusions hold at every assignment that is in range on the open wires of the network, i.e. at every entry
+   of the denoted tensor (the restriction is necessary: C02_example_in_range_needed). *)
+From Coq Require Import ZArith.
+From PTN Require Import Wire.SemInst TTN.InvSemEyeRange TTN.InvSemRunRange.
+
+(* the in-range premises are implied by the unrestricted ones: the new run theorem covers every sequence the
+   old one covers (at in-range assignments) *)
+Theorem C02_contracts_hold_weaken : forall (R : Type) (zero one : R) (add mul : R -> R -> R)
+  (tbl : nat -> list nat -> R) (ops : list op) (s : store),
+  contracts_hold zero one add mul tbl s ops -> contracts_hold_in_range zero one add mul tbl s ops.
+Proof. exact (@contracts_hold_weaken). Qed.
+Print Assumptions C02_contracts_hold_weaken.
+
+Theorem C02_split_net_value_in_range : forall (R : Type) (zero one : R) (add mul : R -> R -> R),
+  comm_semiring zero one add mul -> forall (tbl : nat -> list nat -> R)
+  (s : store) (n : id) (o i : legspec) (oid iid : id) (kind : nat) (m : mode) (rbond : nat) (s' : store),
+  wfs s -> split_nodes s n o i oid iid kind m rbond = Some s' -> spec_ok s n o i -> ids_ok s n oid iid ->
+  (forall rho, (forall x, In x (axes (kinput (last (defs s') dflt_def))) -> rho x < wdim s' x) ->
+     sum_upto R zero add (wdim s' (kbond (last (defs s') dflt_def)))
+       (fun k => mul (atom_val R (atom_wires s') tbl (upd rho (kbond (last (defs s') dflt_def)) k) (kq (last (defs s') dflt_def)))
+                     (atom_val R (atom_wires s') tbl (upd rho (kbond (last (defs s') dflt_def)) k) (kr (last (defs s') dflt_def))))
+     = value_s zero one add mul s' tbl (kinput (last (defs s') dflt_def)) rho) ->
+  Permutation (open_wires s') (open_wires s) /\
+  forall rho, (forall x, In x (open_wires s) -> rho x < wdim s x) ->
+    net_value zero one add mul s' tbl rho = net_value zero one add mul s tbl rho.
+Proof. exact split_net_value_in_range. Qed.
+Print Assumptions C02_split_net_value_in_range.
+
+(* both wires of the identity atom are summed within the dimension of the old edge: only in-range entries of
+   its table are read, and the value is unchanged at EVERY assignment *)
+Theorem C02_insert_identity_net_value_in_range : forall (R : Type) (zero one : R) (add mul : R -> R -> R),
+  comm_semiring zero one add mul -> forall (tbl : nat -> list nat -> R)
+  (s : store) (c p new : id) (s' : store),
+  wfs s -> insert_identity s c p new = Some s' ->
+  (forall i j, i < wdim s' (nth 0 (atom_wires s' (next_atom s)) 0) -> j < wdim s' (nth 1 (atom_wires s' (next_atom s)) 0) ->
+     tbl (next_atom s) [i; j] = if Nat.eqb i j then one else zero) ->
+  open_wires s' = open_wires s /\
+  forall rho, net_value zero one add mul s' tbl rho = net_value zero one add mul s tbl rho.
+Proof. exact insert_identity_net_value_in_range. Qed.
+Print Assumptions C02_insert_identity_net_value_in_range.
+
+(* every editing operation keeps the recorded dimension of every existing wire *)
+Theorem C02_step_wdim_old : forall (s : store) (o : op) (s' : store) (x : wire),
+  wf s -> is_edit_op o = true -> step s o = Some s' -> x < next_wire s -> wdim s' x = wdim s x.
+Proof. exact step_wdim_old. Qed.
+Print Assumptions C02_step_wdim_old.
+
+(* every sequence of operations without add_child under the documented preconditions and the IN-RANGE kernel
+   contracts: invariant kept, same set of open wires with the same dimensions, same value at every assignment
+   that is in range on the open wires *)
+Theorem C02_run_net_value_in_range : forall (R : Type) (zero one : R) (add mul : R -> R -> R),
+  comm_semiring zero one add mul -> forall (tbl : nat -> list nat -> R) (ops : list op) (s : store),
+  wfs s -> ops_ok s ops -> forallb is_edit_op ops = true -> contracts_hold_in_range zero one add mul tbl s ops ->
+  wfs (fst (run s ops)) /\
+  Permutation (open_wires (fst (run s ops))) (open_wires s) /\
+  (forall x, In x (open_wires s) -> wdim (fst (run s ops)) x = wdim s x) /\
+  forall rho, (forall x, In x (open_wires s) -> rho x < wdim s x) ->
+    net_value zero one add mul (fst (run s ops)) tbl rho = net_value zero one add mul s tbl rho.
+Proof. exact run_net_value_in_range. Qed.
+Print Assumptions C02_run_net_value_in_range.
+
+(* entry level: every entry of the denoted tensor at a multi-index within the shape of the open legs *)
+Theorem C02_run_net_entry_in_range : forall (R : Type) (zero one : R) (add mul : R -> R -> R),
+  comm_semiring zero one add mul -> forall (tbl : nat -> list nat -> R) (ops : list op) (s : store)
+  (rho0 : wire -> nat) (idx idx' : list nat),
+  wfs s -> ops_ok s ops -> forallb is_edit_op ops = true -> contracts_hold_in_range zero one add mul tbl s ops ->
+  Forall2 (fun w k => k < wdim s w) (open_wires s) idx ->
+  (forall x, In x (open_wires s) ->
+     assign rho0 (open_wires (fst (run s ops))) idx' x = assign rho0 (open_wires s) idx x) ->
+  net_entry zero one add mul (fst (run s ops)) tbl rho0 idx' = net_entry zero one add mul s tbl rho0 idx.
+Proof. exact run_net_entry_in_range. Qed.
+Print Assumptions C02_run_net_entry_in_range.
+
+(* non-vacuity exactly where C02_run_net_value is vacuous: root (2,3) with child (2,2); an identity node is
+   inserted on the edge and QR-split (Q = [[1,1],[0,1]], R = [[1,-1],[0,1]] over Z, junk beyond the index range;
+   the identity atom's table is the unbounded identity): every premise of C02_run_net_value_in_range holds ... *)
+Example C02_example_contracts_in_range :
+  exr_ops = [InsertIdentity 1 0 9;
+             Split 9 {| ls_parent := Some 0; ls_children := []; ls_open := []; ls_root := false |}
+                     {| ls_parent := None; ls_children := [1]; ls_open := []; ls_root := false |} 7 8 0 Reduced 0] /\
+  wfsb exr_s0 = true /\ ops_okb exr_s0 exr_ops = true /\ forallb is_edit_op exr_ops = true /\
+  snd (run exr_s0 exr_ops) = [true; true] /\
+  contracts_hold_in_range 0%Z 1%Z Z.add Z.mul exr_tbl exr_s0 exr_ops.
+Proof. split; [reflexivity|exact exr_hyps]. Qed.
+Print Assumptions C02_example_contracts_in_range.
+
+(* ... so the theorem applies, and the six entries computed independently agree *)
+Example C02_example_in_range_conclusion :
+  (forall rho, (forall x, In x (open_wires exr_s0) -> rho x < wdim exr_s0 x) ->
+     net_value 0%Z 1%Z Z.add Z.mul (fst (run exr_s0 exr_ops)) exr_tbl rho = net_value 0%Z 1%Z Z.add Z.mul exr_s0 exr_tbl rho) /\
+  open_wires exr_s0 = [1; 3] /\ open_wires (fst (run exr_s0 exr_ops)) = [1; 3] /\
+  map (fun idx => net_entry 0%Z 1%Z Z.add Z.mul (fst (run exr_s0 exr_ops)) exr_tbl (fun _ => 0) idx)
+      [[0; 0]; [0; 1]; [1; 0]; [1; 1]; [2; 0]; [2; 1]]
+  = map (fun idx => net_entry 0%Z 1%Z Z.add Z.mul exr_s0 exr_tbl (fun _ => 0) idx)
+      [[0; 0]; [0; 1]; [1; 0]; [1; 1]; [2; 0]; [2; 1]].
+Proof. split; [exact exr_conclusion|exact exr_entries]. Qed.
+Print Assumptions C02_example_in_range_conclusion.
+
+(* ... whereas NO table over Z satisfies the unrestricted premises of C02_run_net_value for this sequence
+   (the 3x3 identity does not factor through the bond of dimension 2): that theorem is vacuous here *)
+Theorem C02_eye_atom_split_unsatisfiable : forall tbl : nat -> list nat -> Z,
+  ~ contracts_hold 0%Z 1%Z Z.add Z.mul tbl exr_s0 exr_ops.
+Proof. exact eye_split_unsatisfiable_Z. Qed.
+Print Assumptions C02_eye_atom_split_unsatisfiable.
+
+(* the restriction to in-range assignments is necessary: a split whose factors satisfy the in-range contract
+   and vanish beyond the range while the split tensor's table does not; the networks differ at an assignment
+   that puts the out-of-range index 2 on an open wire *)
+Example C02_example_in_range_needed :
+  wfsb exv_s0 = true /\ ops_okb exv_s0 exo_ops = true /\ forallb is_edit_op exo_ops = true /\
+  contracts_hold_in_range 0%Z 1%Z Z.add Z.mul exo_tbl exv_s0 exo_ops /\
+  net_value 0%Z 1%Z Z.add Z.mul (fst (run exv_s0 exo_ops)) exo_tbl (fun x => if Nat.eqb x 0 then 2 else 0)
+  <> net_value 0%Z 1%Z Z.add Z.mul exv_s0 exo_tbl (fun x => if Nat.eqb x 0 then 2 else 0).
+Proof. exact exo_in_range_needed. Qed.
+Print Assumptions C02_example_in_range_needed.
